@@ -172,6 +172,8 @@ func runC36(c *eng.Ctx) {
 			for _, st := range stores {
 				ok := eng.FuncName(st.Fn) == strings.TrimPrefix(t.pkg, "pkg/")+".NewTransport"
 				c.Check("R3", "field-writer:"+t.typ+"."+f, st.Store.Pos(), ok, "transport "+f+" is written only by the constructor", eng.FuncName(st.Fn))
+				_, isParam := st.Store.Val.(*ssa.Parameter)
+				c.Check("R3", "field-value:"+t.typ+"."+f, st.Store.Pos(), isParam, "the constructor stores its argument unchanged (no transformation after validation)", eng.Render(st.Store.Val))
 			}
 			if len(stores) == 0 {
 				c.Problem("R3", "no store to %s.%s found", t.typ, f)
